@@ -299,7 +299,143 @@ def extract_cmd(ctx=None):
     return pygen.write_if_changed(pygen._lean_path("GenCmd.lean"), cmd_source())
 
 
-SOURCES = {"cmd": cmd_source}
+# ---------------------------------------------------------------------------------------------------------------------
+# C20: the chain loop of Manu.run
+
+MANU_BEFORE = '''
+log.info("Manual setup chain started.")
+os.environ["LANG"] = "en_US.UTF-8"
+config["run.suite_runner"] = "traverser"
+config["params"] = config["i2n.manu.params"]
+try:
+    cmd_parser.params_from_cmd(config)
+except (ValueError, param.EmptyCartesianProduct) as error:
+    LOG_UI.error(error)
+    return 1
+intertest.load_addons_tools()
+run_params = config["vms_params"]
+setup_chain = run_params.get("setup", "").split()
+retcode = 0
+'''
+
+MANU_AFTER = '''
+log.info("Manual setup chain finished.")
+return retcode
+'''
+
+MANU_COUNT = 'run_params["count"] = i'
+MANU_GETATTR = 'setup_func = getattr(intertest, setup_step)'
+MANU_TB_LOOP = 'for item in tb_list:\n    log.error(item.rstrip())\n'
+
+MANU_PRELUDE = [
+    "/-- the state of the chain loop of `Manu.run`: `retcode`, the environment the steps act on, and what was called so",
+    "far; an exception that escapes the loop (`getattr` of an unknown step) keeps the state (`ExceptT` over `StateM`) -/",
+    "structure ChainSt (σ : Type) where",
+    "  rc : Nat",
+    "  env : σ",
+    "  executed : List (String × Nat)",
+    "  outcomes : List Outcome",
+    "",
+    "abbrev M (σ : Type) := ExceptT Err (StateM (ChainSt σ))",
+    "variable {σ : Type}",
+    "/-- `retcode = <n>` -/",
+    "def setRetcode (n : Nat) : M σ Unit := modify (fun s => { s with rc := n })",
+]
+
+MANU_SKELETON = [
+    "/-- the loop body of `Manu.run`.  NOT translated but matched structurally by harness/pygen_pxcmd.py (the body must be",
+    "exactly: `run_params[\"count\"] = i`; `setup_func = getattr(intertest, setup_step)`; `try: <genTryBody> except",
+    "Exception as error: <genExceptBody>` without `else` / `finally`): `known` = `hasattr(intertest, step)` (the `getattr`",
+    "stands outside the `try`, its AttributeError escapes), `f` = the step function acting on the environment; what it",
+    "does (`Outcome`) is the value of the call expression of the `try` body, or the exception the handler catches -/",
+    "def genChainStep (known : String → Bool) (f : σ → String → Nat → Outcome × σ) (i : Nat) (setup_step : String) :",
+    "    M σ Unit := ExceptT.mk (fun s =>",
+    "  if !known setup_step then (.error Err.attributeError, s)",
+    "  else",
+    "    let r := f s.env setup_step i",
+    "    let s' : ChainSt σ := { s with env := r.2, executed := s.executed ++ [(setup_step, i)],",
+    "                                   outcomes := s.outcomes ++ [r.1] }",
+    "    match r.1 with",
+    "    | .raised => (genExceptBody.run).run s'",
+    "    | o => ((genTryBody o).run).run s')",
+    "",
+    "/-- `for i, setup_step in enumerate(setup_chain): <body>` from index `i` on: the body runs for one step after the",
+    "other until an exception escapes -/",
+    "def genChainLoop (known : String → Bool) (f : σ → String → Nat → Outcome × σ) : Nat → List String → M σ Unit",
+    "  | _, [] => ExceptT.mk (fun s => (.ok (), s))",
+    "  | i, st :: rest => ExceptT.mk (fun s =>",
+    "    match ((genChainStep known f i st).run).run s with",
+    "    | (.ok _, s') => ((genChainLoop known f (i + 1) rest).run).run s'",
+    "    | (.error e, s') => (.error e, s'))",
+    "",
+    "/-- `retcode = 0` in front of the loop, `return retcode` behind it (both pinned) -/",
+    "def genManuChain (known : String → Bool) (f : σ → String → Nat → Outcome × σ) (env : σ) (chain : List String) :",
+    "    Except Err Nat × ChainSt σ :=",
+    "  let r := ((genChainLoop known f 0 chain).run).run { rc := 0, env := env, executed := [], outcomes := [] }",
+    "  (r.1.map (fun _ => r.2.rc), r.2)",
+]
+
+
+def _synth(name, body, like):
+    fn = ast.FunctionDef(name=name, args=ast.arguments(posonlyargs=[], args=[], vararg=None, kwonlyargs=[],
+                                                       kw_defaults=[], kwarg=None, defaults=[]),
+                         body=body, decorator_list=[], returns=None, type_comment=None, type_params=[])
+    fn.lineno, fn.col_offset = like.lineno, like.col_offset
+    return ast.fix_missing_locations(fn)
+
+
+def manu_specs():
+    try_spec = Spec(
+        "genTryBody", binders=[("o", "Outcome")], params={}, ret="unit", monad="M σ",
+        atoms={"setup_func(config, '0m%s' % i) in [None, 0]": ("(!o.fails)", "bool")},
+        stmts={"retcode = 1": "setRetcode 1"}, prelude=MANU_PRELUDE,
+        doc="the body of the `try` of the chain loop of `Manu.run` (avocado_i2n/plugins/manu.py) when the step "
+            "function returns; `o` = what it returned, `o.fails` = `setup_func(config, \"0m<i>\") not in [None, 0]`")
+    exc_spec = Spec(
+        "genExceptBody", binders=[], params={}, ret="unit", monad="M σ",
+        stmts={"retcode = 1": "setRetcode 1", MANU_TB_LOOP: "pure ()"},
+        ignored_calls={"LOG_UI.error", "log.error"},
+        doc="the body of `except Exception as error:` of the chain loop of `Manu.run`: the step function raised")
+    return try_spec, exc_spec
+
+
+def manu_source(path=None):
+    path = path or pygen._src("PYGEN_MANU_SRC", "avocado_i2n/plugins/manu.py")
+    fn, consts = loop_body(path, "Manu.run", "(i, setup_step)", "enumerate(setup_chain)", before=MANU_BEFORE,
+                           after=MANU_AFTER, name="manu_run_loop_body")
+    body = fn.body
+    if len(body) != 3 or pygen.dump_stmts(body[:2]) != pygen.norm_block(MANU_COUNT + "\n" + MANU_GETATTR) \
+            or not isinstance(body[2], ast.Try):
+        raise Unsupported("Manu.run: the loop body is no longer `run_params[\"count\"] = i; setup_func = getattr(…); "
+                          "try: … except Exception as error: …`")
+    t = body[2]
+    if t.orelse or t.finalbody or len(t.handlers) != 1 or ast.unparse(t.handlers[0].type or ast.Constant(None)) != "Exception" \
+            or t.handlers[0].name != "error":
+        raise Unsupported("Manu.run: the `try` of the loop body changed its shape (one `except Exception as error`, "
+                          "no else / finally expected)")
+    try_spec, exc_spec = manu_specs()
+    try_fn = _synth("manu_run_try_body", t.body, t)
+    exc_fn = _synth("manu_run_except_body", t.handlers[0].body, t.handlers[0])
+    for f, sp in ((try_fn, try_spec), (exc_fn, exc_spec)):
+        check_state_uses(f, sp, {"retcode", "setup_chain"})
+        for n in ast.walk(f):
+            if isinstance(n, (ast.Try, ast.Raise, ast.With)):
+                raise Unsupported(f"Manu.run:{n.lineno}: {type(n).__name__} inside the try / except body")
+    # the only expression of the try body that may raise is the step call (it is the atom): nothing is assigned in
+    # front of it, so "an exception leaves the try body without any of its effects" holds
+    d1 = pygen.translate(try_fn, try_spec, consts)
+    d2 = pygen.translate(exc_fn, exc_spec, consts)
+    return pygen.render_file("harness/pygen_pxcmd.py:extract_manu (called by harness/props/c20.py:extract) from "
+                             "avocado_i2n/plugins/manu.py", ["I2N.Model.Tools"], "I2N.Extracted.GenManu", ["I2N.Tools"],
+                             [d1, d2, MANU_SKELETON])
+
+
+def extract_manu(ctx=None):
+    return pygen.write_if_changed(pygen._lean_path("GenManu.lean"), manu_source())
+
+
+SOURCES = {"cmd": cmd_source, "manu": manu_source}
+
 
 if __name__ == "__main__":
     for name in sys.argv[1:] or list(SOURCES):
